@@ -32,7 +32,7 @@ request (`Copy` → `setColumn`) are inlined. Whatever is not understood becomes
 Evaluation is on an abstract PHYSICAL frame: a `Heap` of backing arrays with allocation ids (three kinds: index arrays,
 column lists, name maps) and Go slice headers (`ISlice`: array id, offset, length, capacity) — so sharing, re-slicing,
 `append` within / beyond the capacity and `copy` mean what they mean in Go. Columns are arrays of cells over PHYSICAL rows
-(`PCol`); the logical frame of a physical one is `PFrame.abs`: the cells at the index's row numbers.
+(`PXCol`); the logical frame of a physical one is `PFrame.abs`: the cells at the index's row numbers.
 
 Every modification of an existing array is LOGGED (`Wr`: kind and id). The persistence statement of C01 — an operation
 writes only to arrays it allocated itself — is a statement about that log, read off the regenerated code.
@@ -42,7 +42,7 @@ namespace QF
 /-! ## Physical frames -/
 
 /-- A column as stored: cells over PHYSICAL rows. -/
-structure PCol where
+structure PXCol where
   ty : CType
   vals : List Bytes := []
   strict : Bool := false
@@ -53,7 +53,7 @@ structure PCol where
 structure NCol where
   name : Bytes
   pos : Nat
-  col : Option PCol
+  col : Option PXCol
   deriving Repr, Inhabited, DecidableEq
 
 /-- the zero value of `namedColumn` (`make([]namedColumn, n)`, a missing map key) -/
@@ -451,7 +451,7 @@ structure PIn where
   dst : Bytes := []
   src : Bytes := []
   /-- the `column.Column` parameter -/
-  colParam : Option PCol := none
+  colParam : Option PXCol := none
   /-- the index parameter (the receiver of the methods of `index.Int`) -/
   ixParam : ISlice := ISlice.nil
   bools : List Bool := []
@@ -554,7 +554,7 @@ def PN.eval (E : PIn) (σ : PMem) : PN → Bytes
   | .src => E.src
   | .each => E.each
   | .nameOf e => (e.eval E σ).name
-def PC.eval (E : PIn) (σ : PMem) : PC → Option PCol
+def PC.eval (E : PIn) (σ : PMem) : PC → Option PXCol
   | .colOf e => (e.eval E σ).col
   | .param => E.colParam
 end
